@@ -13,7 +13,6 @@ import shutil
 from vlib import core
 
 META = {
-    "claimed": False,
     "harness_bins": ["nkeval"],
     "extract": "C09.v",
     "technique": "Coq proof: substitution/abstraction laws of a fuel-indexed call-by-name semantics with environments (simulation relation on closures, both directions) and refinement of a call-by-need heap machine (thunks, update, black-holing, no update frame for values) to it on the acyclic fragment; tied to the Rust evaluator by running generated programs and their let-/beta-/field-/element-/import-/seq-rewrites and --field extraction on the implementation (direct oracle) and on both extracted models",
@@ -221,7 +220,10 @@ class Gen:
         self.nvar = 0
         self.fn, self.fd = fault_num, fault_den
 
-    def fresh(self):
+    def fresh(self, unique=False):
+        # names are reused on purpose: shadowing is what distinguishes lexical from dynamic scope
+        if not unique and self.r.chance(1, 3):
+            return self.r.choice(["x", "y", "z", "w"])
         self.nvar += 1
         return "x%d" % self.nvar
 
@@ -318,27 +320,39 @@ class Gen:
             return r.choice(vs)
         if d <= 0:
             return r.choice(vs) if vs and r.chance(1, 2) else self.lit(ty, sc, 0)
+        if self.ext and r.chance(2, 5):
+            return self.by_type(ty, sc, d)
         c = r.below(100)
         if c < 22:
             return self.lit(ty, sc, d)
         if c < 34:
-            x, t1 = self.fresh(), self.rand_type(1)
-            bound = self.fault(t1, sc, d) if r.chance(1, 6) else self.gen(t1, sc, d - 1)
-            # (a failing binding is fine as long as nobody demands it)
-            body_sc = sc + [(x, t1)] if bound[0] not in ("fail",) else sc
-            return ("let", x, bound, self.gen(ty, body_sc, d - 1))
+            t1 = self.rand_type(1)
+            if r.chance(1, 6):
+                # a failing binding is fine as long as nobody demands it
+                return ("let", self.fresh(unique=True), self.fault(t1, sc, d), self.gen(ty, sc, d - 1))
+            x = self.fresh()
+            bound = self.gen(t1, sc, d - 1)
+            return ("let", x, bound, self.gen(ty, sc + [(x, t1)], d - 1))
         if c < 44:
-            x, t1 = self.fresh(), self.rand_type(1, False)
+            t1 = self.rand_type(1, False)
+            if r.chance(1, 8):
+                return ("app", ("lam", self.fresh(unique=True), self.gen(ty, sc, d - 1)), self.fault(t1, sc, d))
+            x = self.fresh()
             f = ("lam", x, self.gen(ty, sc + [(x, t1)], d - 1))
-            a = self.fault(t1, sc, d) if r.chance(1, 8) else self.gen(t1, sc, d - 1)
-            if a[0] == "fail":
-                f = ("lam", x, self.gen(ty, sc, d - 1))
-            return ("app", f, a)
+            return ("app", f, self.gen(t1, sc, d - 1))
         if c < 50:
-            fs = [(x, t) for x, t in sc if isinstance(t, tuple) and t[0] == "fun" and t[2] == ty]
-            if fs:
+            last = {}
+            for x, t in sc:
+                last[x] = t
+            fs = [(x, t) for x, t in sorted(last.items()) if isinstance(t, tuple) and t[0] == "fun" and t[2] == ty]
+            if fs and r.chance(2, 3):
                 x, t = r.choice(fs)
                 return ("app", ("var", x), self.gen(t[1], sc, d - 1))
+            # a function-valued expression (possibly a closure leaving the scope it was built in)
+            t1 = self.rand_type(1, False)
+            return ("app", self.gen(("fun", t1, ty), sc, d - 1), self.gen(t1, sc, d - 1))
+        if c < 53:
+            return self.scope_probe(ty, sc, d)
         if c < 58:
             return ("if", self.gen("bool", sc, d - 1), self.gen(ty, sc, d - 1), self.gen(ty, sc, d - 1))
         if c < 64:
@@ -360,12 +374,34 @@ class Gen:
             return ("import", key)
         if c < 84 and ty == "num":
             # structurally terminating recursion
-            f, n = self.fresh(), self.fresh()
+            f, n = self.fresh(unique=True), self.fresh(unique=True)
             step = self.gen("num", sc, d - 2)
             body = ("if", ("bin", "lt", ("var", n), ("num", 1)), self.gen("num", sc, d - 2),
                     ("bin", "add", ("app", ("var", f), ("bin", "sub", ("var", n), ("num", 1))), step))
             return ("letrec", f, ("lam", n, body), ("app", ("var", f), ("num", r.range(0, 4))))
         return self.by_type(ty, sc, d)
+
+    def scope_probe(self, ty, sc, d):
+        """Closures whose body mentions a variable of the defining scope, called where that name
+        is rebound or out of scope (lexical vs dynamic scoping, environment capture)."""
+        r = self.r
+        k, y, f = r.choice(["k", "x", "y"]), self.fresh(unique=True), self.fresh(unique=True)
+        t1 = self.rand_type(0)
+        body = self.gen(ty, sc + [(k, ty)], d - 2)
+        if ("var", k) not in [s for _, s, _ in positions(body)]:
+            body = ("var", k)
+        a, b2 = self.gen(ty, sc, d - 2), self.gen(ty, sc, d - 2)
+        arg = self.gen(t1, sc, d - 2)
+        which = r.below(4)
+        if which == 0:      # let k = A in let f = fun y => ..k.. in let k = B in f arg
+            return ("let", k, a, ("let", f, ("lam", y, body), ("let", k, b2, ("app", ("var", f), arg))))
+        if which == 1:      # (let k = A in fun y => ..k..) arg
+            return ("app", ("let", k, a, ("lam", y, body)), arg)
+        if which == 2:      # ((fun k => fun y => ..k..) A) arg, under an outer rebinding of k
+            return ("let", k, b2, ("app", ("app", ("lam", k, ("lam", y, body)), a), arg))
+        # a closure stored in a record field and called elsewhere
+        return ("let", k, a, ("let", f, ("rec", [("h", ("lam", y, body))]),
+                              ("let", k, b2, ("app", ("get", ("var", f), "h"), arg))))
 
     def by_type(self, ty, sc, d):
         r = self.r
@@ -380,7 +416,7 @@ class Gen:
                 if which == 1:
                     return ("std", "std.string.length", [g("str")])
                 if which == 2:
-                    a, x = self.fresh(), self.fresh()
+                    a, x = self.fresh(unique=True), self.fresh(unique=True)
                     f = ("lam", a, ("lam", x, ("bin", "add", ("var", a), self.gen("num", sc + [(a, "num"), (x, "num")], d - 2))))
                     return ("std", "std.array.fold_left", [f, g("num"), g(("arr", "num"))])
                 fs = r.shuffle(FIELDS)[: r.range(1, 3)]
@@ -878,6 +914,8 @@ def run(ck):
                           "rng": core.SplitMix64(7), "npos": 50})
         ck.coverage["corpus_cases"] = len(progs)
         n = 600 if ck.tier == "quick" else 20000
+        if os.environ.get("VERIF_C09_N"):
+            n = int(os.environ["VERIF_C09_N"])       # for experiments only; the tiers use the fixed counts
         progs += make_programs(ck, n, 9)
         chunk = 2500
         for i in range(0, len(progs), chunk):
